@@ -45,7 +45,7 @@ theorem resolve_qualified (env : NsEnv) (henv : EnvOK env) (d : Option Str) (Mf 
     · intro _ hne; exact absurd hxu hne
     · intro _; rfl
   · simp only [hx, if_false]
-    obtain ⟨k, hc, hm⟩ := hK u hune hp
+    obtain ⟨k, hc, hm⟩ := hK.live hM.nodup u hune hp
     rw [hc]
     have hxu : u ≠ xmlNsUri := by rw [← henv.xmlNs]; exact hx
     cases k with
@@ -93,7 +93,7 @@ open Py Xs.Ns Xs.Sax Xs.Writer Spec.XmlNs Proofs.MapInv Proofs.Flush Spec.Hyps
 theorem resolve_attr (env : NsEnv) (henv : EnvOK env) (d : Option Str) (Mf : NsMap)
     (S : List (Pfx × Str)) (g : GState)
     (hM : MapOK env d Mf) (hS : ScopeEq S Mf) (hK : K2 Mf g.cur)
-    (n : EName) (hn : attrNameOK d n = true) (hp : ∀ u, n.1 = some u → prefixExists u Mf = true) :
+    (n : EName) (hn : attrNameOK d n = true) (hp : ∀ u, n.1 = some u → prefixedExists u Mf = true) :
     ∃ w, gQName env.saxXmlNs g n = .ok w ∧ resolveAttr S w = some n := by
   obtain ⟨uo, l⟩ := n
   simp only [attrNameOK, Bool.and_eq_true] at hn
@@ -107,20 +107,19 @@ theorem resolve_attr (env : NsEnv) (henv : EnvOK env) (d : Option Str) (Mf : NsM
     have : (l != xmlnsPrefix) = true := by simpa using hrest
     simp [hl, this]
   | some u =>
-    simp only [Bool.and_eq_true, bne_iff_ne, ne_eq] at hrest
-    obtain ⟨hu, hud⟩ := hrest
-    have hpe := hp u rfl
+    simp only [] at hrest
+    have hu := hrest
+    obtain ⟨s0, hs0⟩ := prefixedExists_true u Mf (hp u rfl)
+    have hget0 := NoDupKeys_dget_of_mem Mf (some s0) u hM.nodup hs0
+    have hpe : prefixExists u Mf = true := prefixExists_of_mem u Mf (some s0, u) hs0 rfl
     obtain ⟨w, hw, hres, hform, hxml⟩ := resolve_qualified env henv d Mf S g hM hS hK u l hl hu hpe
     refine ⟨w, hw, ?_⟩
     have hune := uriOK_ne_nil u hu
     -- the prefix found for `u` is not the default namespace
     have hnd : dget g.cur u ≠ some none := by
       intro hc
-      obtain ⟨k, hk, hm⟩ := hK u hune hpe
+      obtain ⟨s', hk, _⟩ := hK.pre u hune s0 hget0
       rw [hc] at hk; cases hk
-      rcases hM.dflt u hm with h | h
-      · exact hune h
-      · exact hud h
     have hcolon : ∃ p, splitColon w = (some p, l) := by
       by_cases hx : u = xmlNsUri
       · rw [hxml hx]
@@ -166,7 +165,7 @@ theorem resolve_attrs (env : NsEnv) (henv : EnvOK env) (d : Option Str) (Mf : Ns
     (S : List (Pfx × Str)) (g : GState)
     (hM : MapOK env d Mf) (hS : ScopeEq S Mf) (hK : K2 Mf g.cur) (A : List (EName × Option Str)) :
     (∀ e ∈ A, attrNameOK d e.1 = true) → (∀ e ∈ A, ∃ v, e.2 = some v ∧ xmlChars v = true) →
-    (∀ e ∈ A, ∀ u, e.1.1 = some u → prefixExists u Mf = true) →
+    (∀ e ∈ A, ∀ u, e.1.1 = some u → prefixedExists u Mf = true) →
     ∃ ws vs, gAttrs env.saxXmlNs g A = .ok ws ∧ someVals A = some vs ∧ resolveAttrs S ws = some vs := by
   induction A with
   | nil => intro _ _ _; exact ⟨[], [], rfl, rfl, rfl⟩
